@@ -114,6 +114,20 @@ fn apply_pm<'a>(mut p: Parser<'a>, op: &str, k: usize) -> (Ret, Parser<'a>) {
     (Ret::Int(b), p)
 }
 
+/// a user type hooked into parse_with! through HasParser (beyond the listed properties: compared as extra)
+pub struct UserTag;
+impl konst::parsing::HasParser for UserTag {
+    type Parser = UserTag;
+}
+impl UserTag {
+    pub const fn parse_with(p: Parser<'_>) -> konst::parsing::ParseValueResult<'_, UserTag> {
+        match p.strip_prefix("a") {
+            Ok(q) => Ok((UserTag, q)),
+            Err(e) => Err(e),
+        }
+    }
+}
+
 /// projection of the parser on the abstract state; lo/hi by pointer position inside `orig`
 pub fn observe(p: Parser<'_>, orig: &str, base: usize) -> V {
     let rem = p.remainder();
@@ -169,6 +183,12 @@ pub fn replay(s: &mut Summary, v: &V) {
     // (C18 replays the same graph restricted to the parser_method! forms: the plain state is C13's business)
     if v.get("only_pm").is_none() {
         s.check("Parser/state", observe(p, orig, base), &exp_st);
+    }
+    // parse_with!(p, UserTag) must be the user's parser, i.e. strip_prefix("a") on this state
+    if v.get("only_pm").is_none() {
+        let via_macro = match konst::parse_with!(p, UserTag) { Ok((_, q)) => observe(q, orig, base), Err(e) => json!({"err": e.offset()}) };
+        let direct = match p.strip_prefix("a") { Ok(q) => observe(q, orig, base), Err(e) => json!({"err": e.offset()}) };
+        s.extra("parse_with!(_, user type)", via_macro, &direct);
     }
     for out in v["outs"].as_array().unwrap() {
         let (op, pat, n) = op_fields(&out["o"]);
